@@ -10,6 +10,7 @@ import itertools
 import numpy as np
 
 from vf.alpha import build, meshes
+from vf.core import pool
 from vf.core.state import digest
 
 ID = "C06"
@@ -26,7 +27,7 @@ ASSUMPTIONS = [
 ]
 BOUNDS = {
     "quick": "7 meshes; all 15 (rule, order) pairs on identity/generic/ones rank<=1, default rule on the whole data x rank alphabet",
-    "thorough": "11 meshes; all 15 (rule, order) pairs on the whole data x rank alphabet",
+    "thorough": "11 meshes; all 15 (rule, order) pairs on the whole data x rank alphabet; all 30 ordered pairs of prior operations and all (rule, order) call sequences of length 2 (3 on the mixed patch: 3375) on 3 meshes",
 }
 RULES = [("triangular", o) for o in (4, 1, 8, 10, 12)] + [("gaussian", o) for o in (4, 1, 2, 3, 5, 6, 7, 8, 9, 10)]
 QUICK = ["tetra", "single3", "mixedpatch", "pyr5", "prism", "cube", "sizes38"]
@@ -70,6 +71,15 @@ def cases(tier):
                 out.append({"kind": "int", "mesh": name, "rev": rev, "tier": tier, "pre": pre})
         out.append({"kind": "lin", "mesh": name})
         out.append({"kind": "reject", "mesh": name})
+    if tier == "thorough":
+        # every ordered pair of cache-filling prior operations, and every ordered pair/triple of (rule, order) calls on one fresh grid
+        for name in ("mixedpatch", "tetra", "sizes38"):
+            for a in PRE:
+                for b in PRE:
+                    if a != b:
+                        out.append({"kind": "int", "mesh": name, "rev": False, "tier": tier, "pre": a + " ; " + b})
+            for first in range(len(RULES)):
+                out.append({"kind": "seq", "mesh": name, "first": first, "depth": 3 if name == "mixedpatch" else 2})
     return out
 
 
@@ -86,6 +96,45 @@ def _new():
     return {"violations": [], "evaluations": 0, "transitions": 0, "nontrivial": [], "outcomes": [], "axes": {}, "states": []}
 
 
+def _seq(case, m, res):
+    """every sequence of `depth` integrate calls with (rule, order) arguments on ONE fresh grid: each result is the sum weighted with its own rule's areas"""
+    import itertools
+
+    V = res["violations"]
+    data = build.data_alphabet(m.n_face, ("generic",))[0][1]
+    ref = {}
+    for rest in itertools.product(range(len(RULES)), repeat=case["depth"] - 1):
+        seq = (case["first"],) + rest
+        if "only" in case and list(seq) != case["only"]["seq"]:
+            continue
+        focus = dict(case, only={"seq": list(seq)})
+        pool.fresh()
+        g = build.grid(m)
+        da = build.uxda(g, data.copy(), "n_face", name="psi")
+        res["evaluations"] += 1
+        key = digest((case["mesh"], seq))
+        res["states"].append(key)
+        if len(set(seq)) > 1:
+            res["nontrivial"].append(key)
+        for step, ri in enumerate(seq):
+            rule, order = RULES[ri]
+            res["transitions"] += 1
+            if ri not in ref:
+                ref[ri] = float(np.dot(data, _areas(m, rule, order)))
+            try:
+                v = float(da.integrate(quadrature_rule=rule, order=order).values)
+            except Exception as e:
+                V.append({"oracle": "seq", "sig": "c06:seq:raises:%s" % type(e).__name__, "msg": "call %d of %s raised %r" % (step, [RULES[i] for i in seq], e), "focus": focus})
+                break
+            if abs(v - ref[ri]) > 1e-12 * max(1.0, abs(ref[ri])):
+                V.append({"oracle": "seq", "sig": "c06:seq:value:%s" % ("first-call" if step == 0 else "after-other-rule"), "msg": "grid %s, calls %s: call %d returned %r, area-weighted sum with its own rule = %r" % (case["mesh"], [RULES[i] for i in seq], step, v, ref[ri]), "focus": focus})
+                break
+        res["outcomes"].append(digest(seq[-1]))
+    res["axes"] = {"call_sequence_depth": {str(case["depth"]): res["evaluations"]}}
+    res["sample"] = {"mesh": case["mesh"], "kind": "seq", "first": list(RULES[case["first"]])}
+    return res
+
+
 def _areas(mesh, rule, order):
     g = build.grid(mesh)
     a, _ = g.compute_face_areas(rule, order)
@@ -99,6 +148,8 @@ def run_case(case):
         return _lin(case, m, res)
     if case["kind"] == "reject":
         return _reject(case, m, res)
+    if case["kind"] == "seq":
+        return _seq(case, m, res)
     import uxarray as ux
 
     V = res["violations"]
@@ -107,7 +158,8 @@ def run_case(case):
     g = build.grid(m)  # one grid object for the whole (rule, order) sequence
     pre = case.get("pre")
     if pre:
-        PRE[pre](g)
+        for p1 in pre.split(" ; "):
+            PRE[p1](g)
     ref_area = {}
     datas = build.data_alphabet(m.n_face, ("identity", "generic", "ones", "int", "bool", "f32", "impulses"))
     for rule, order in rules:
